@@ -195,6 +195,19 @@ pub fn run() -> i32 {
                 }
             }
         }
+        // call nodes
+        for nargs in 0..=3u8 {
+            for bits in 0..8u8 {
+                for name in 0..2u8 {
+                    crate::sym::load(vec![vec![nargs], vec![bits & 1], vec![(bits >> 1) & 1], vec![(bits >> 2) & 1], vec![name]]);
+                    n += 1;
+                    if std::panic::catch_unwind(|| crate::node::c07_call()).is_err() {
+                        c11_bad += 1;
+                        eprintln!("SELFTEST-FAIL: c07_call reference disagrees with the evaluator: nargs={} bits={} name={}", nargs, bits, name);
+                    }
+                }
+            }
+        }
         failed += c11_bad;
     }
     println!("SELFTEST cases={} failed={} sweep_mismatches={}", n, failed, mism);
